@@ -174,3 +174,74 @@ def rule_lostupdate(repo, rid, modules):
     if len(lost_updates(fx)) != 1:
         raise AnalysisError('%s: fixtures no longer classified' % rid)
     return res
+
+
+# ------------------------------------------------------------------------------------------------ tensor objects re-pointed / cut from their graph in place
+STORAGE_MUTATORS = {'detach_', 'set_', 'resize_', 'resize_as_', 'as_strided_', 'share_memory_', 'rename_', 'squeeze_', 'unsqueeze_', 'transpose_', 't_', 'swapaxes_', 'swapdims_'}
+
+
+def storage_mutations(fnode):
+    """[(node, what)]: `x.data = ..` (the tensor object is re-pointed to other storage: every view it was taken from / handed out stops sharing memory with it),
+    `x.set_ / resize_`; `x.detach_()` / `x.unsqueeze_()` ... when x is (an alias of) a parameter - the caller's object loses its graph / changes its shape - or,
+    for detach_, when x is read again later in the function (the graph is cut before it was used: `g1.detach_()` ahead of `grad(g1.sum(), x)`).  A detach_ of a
+    local in the return statement, after its last use, changes nothing anybody else holds."""
+    a = fnode.args
+    params = {x.arg for x in a.posonlyargs + a.args + a.kwonlyargs} | ({a.vararg.arg} if a.vararg else set())
+    alias = set(params) - {'self', 'cls'}
+    changed = True
+    while changed:
+        changed = False
+        for n in ast.walk(fnode):
+            if isinstance(n, ast.Assign):
+                pairs = []
+                for t in n.targets:
+                    if isinstance(t, ast.Tuple) and isinstance(n.value, ast.Tuple) and len(t.elts) == len(n.value.elts):
+                        pairs += list(zip(t.elts, n.value.elts))
+                    else:
+                        pairs.append((t, n.value))
+                for t, v in pairs:
+                    if isinstance(t, ast.Name) and t.id not in alias and isinstance(v, ast.Name) and v.id in alias:
+                        alias.add(t.id)
+                        changed = True
+    out = []
+    stack = list(fnode.body)
+    while stack:
+        n = stack.pop()
+        if isinstance(n, (ast.FunctionDef, ast.AsyncFunctionDef, ast.ClassDef)):
+            continue
+        if isinstance(n, ast.Attribute) and n.attr == 'data' and isinstance(n.ctx, ast.Store):
+            out.append((n, 'assigns `.data`: the tensor object is re-pointed to fresh storage, the tensor it is a view of (and every other view) no longer sees its updates'))
+        elif isinstance(n, ast.Call) and isinstance(n.func, ast.Attribute) and n.func.attr in STORAGE_MUTATORS:
+            recv = n.func.value
+            root = recv
+            while isinstance(root, (ast.Attribute, ast.Subscript)):
+                root = root.value
+            rname = root.id if isinstance(root, ast.Name) else None
+            on_param = rname in alias
+            later = False
+            if n.func.attr == 'detach_' and isinstance(recv, ast.Name):
+                later = any(isinstance(x, ast.Name) and x.id == recv.id and isinstance(x.ctx, ast.Load) and x.lineno > n.lineno for x in ast.walk(fnode))
+            if n.func.attr in ('set_', 'resize_', 'resize_as_', 'as_strided_') or on_param or later:
+                what = ('cuts the autograd graph of `%s` %s' % (src(recv)[:20], 'before its later use in this function' if later and not on_param else 'for the caller')) \
+                    if n.func.attr == 'detach_' else 'changes the shape / storage of the tensor OBJECT `%s` in place: the caller (and every alias) sees another tensor after the call' % src(recv)[:20]
+                out.append((n, '`.%s()` %s' % (n.func.attr, what)))
+        stack.extend(ast.iter_child_nodes(n))
+    return out
+
+
+@guarded
+def rule_storage(repo, rid, modules):
+    res = RuleResult(rid, 'no function re-points a tensor object (`x.data = ..`, set_, resize_), reshapes it in place (unsqueeze_, squeeze_, transpose_) or cuts its graph '
+                     '(detach_): "making it contiguous", "normalising the rank" or "keeping a copy for inspection" this way changes the object the caller holds', floor=1)
+    n = 0
+    for m in modules:
+        for f in repo.module(m).functions.values():
+            n += 1
+            for node, what in storage_mutations(f.node):
+                res.inst({'function': f.fq, 'site': src(node)[:50]}, (f.fq, src(node)[:50]))
+                res.add(Finding(rid, f, '`%s` %s' % (src(node)[:50], what), node=node, construct='tensor object mutated|' + src(node)[:30]))
+    res.inst({'functions scanned': n}, 'scan')
+    fx = ast.parse('def f(v, g):\n    if not v.is_contiguous():\n        v.data = v.data.contiguous()\n    c = g.detach_()\n    w = v.detach().clone()\n    y = h(w)\n    k = y.detach_()\n    z = y.sum()\n    return v, c, w, z.detach_()\n').body[0]
+    if len(storage_mutations(fx)) != 3:
+        raise AnalysisError('%s: fixtures no longer classified' % rid)
+    return res
